@@ -589,3 +589,12 @@ pub(crate) struct Pake3<'a> {
     /// The cA confirmation (32 bytes HMAC)
     pub ca: OctetStr<'a>,
 }
+
+// Verification hook. Inert unless built by the Kani compiler (`cargo kani`, `cargo kani playback`):
+// the harness text lives outside this repository, in `$RS_MATTER_VERIF_DIR`.
+#[cfg(kani)]
+mod verif_kani {
+    #[allow(unused_imports)]
+    use super::*;
+    include!(concat!(env!("RS_MATTER_VERIF_DIR"), "/sc__pase.rs"));
+}
